@@ -110,7 +110,7 @@ def lookup {α : Type} (k : String) : List (String × α) → Option α
   | [] => none
   | (a, v) :: rest => if a = k then some v else lookup k rest
 
-def bind {α : Type} (k : String) (v : α) (env : List (String × α)) : List (String × α) := (k, v) :: env
+def bindVar {α : Type} (k : String) (v : α) (env : List (String × α)) : List (String × α) := (k, v) :: env
 
 namespace BuildState
 
@@ -120,8 +120,8 @@ def bvar (st : BuildState) (b : String) : Except BuildErr Nat :=
   | some bi => .ok bi
   | none => .error .unsupported
 
-def bindB (st : BuildState) (b : String) (bi : Nat) : BuildState := { st with benv := bind b bi st.benv }
-def bindN (st : BuildState) (n : String) (h : Handle) : BuildState := { st with nenv := bind n h st.nenv }
+def bindB (st : BuildState) (b : String) (bi : Nat) : BuildState := { st with benv := bindVar b bi st.benv }
+def bindN (st : BuildState) (n : String) (h : Handle) : BuildState := { st with nenv := bindVar n h st.nenv }
 
 /-- builder variable → (object, record), required to be of a kind satisfying `p` and not spent -/
 def builderOf (st : BuildState) (b : String) (p : BKind → Bool) : Except BuildErr (Nat × BRec) :=
